@@ -296,6 +296,10 @@ def run(ctx, ck):
     # (no floor: a far field that builds its weights with np.where has no such array; the positive example of the
     # catalogue shows on every thorough run that the rule fires on today's layout)
     ck.info('per_half_weight_arrays_in_the_far_field', check_half_weight_symmetry(ctx, ck))
+    # the image is the mirror image: positions go through kvec = (1, 1, k)
+    ck.rule('R-SYM.image-mirror', 'positions are never multiplied by the scalar image index (only by the vector (1, 1, k))')
+    from ._sym import check_image_mirror
+    ck.floor('products with the image index', check_image_mirror(ctx, ck), 2)
     ck.undecided += ['numeric equality with the mirrored free-space model', 'gain 3.0103 dB above the free-space pair']
 
 
